@@ -58,8 +58,10 @@ fn base_cfg(tier: Tier, index: u64) -> HistCfg {
         c.ops.w.stats = 0;
     }
     if index % 600 == 101 {
-        make_very_dense(&mut c);
+        make_very_dense_n(&mut c, 4300 + (index % 7) as u32 * 700);
+        c.big_table = None;
         c.max_buckets = 65536;
+        c.ops.n_ops = 50..=300;
     }
     c
 }
@@ -73,6 +75,8 @@ fn strategy(tier: Tier, index: u64) -> BoxedStrategy<C07Case> {
         .prop_map(|(h, mut sets, small, big)| {
             // always one table < 8 buckets, one >= 128, one eviction-forcing fixed buffer
             if sets.len() >= 3 {
+                // histories with thousands of entries always meet a one-bucket table
+                let small = if h.quiet_prefix > 2000 { 1 } else { small };
                 sets[0].buckets = Buckets::BucketsSize(small);
                 sets[1].buckets = Buckets::BucketsSize(big);
                 sets[2].val = BufP::Size(262144);
